@@ -1,5 +1,7 @@
 ---------------------------- MODULE MC_RefCount ----------------------------
 (* Exhaustive configuration of RefCount: full state, small constants.     *)
+(* Kinds "stream" and "metabuf" have the same capabilities as "rawdata"  *)
+(* and "geninfo" (same transitions); they are exercised by Gen/Trace.     *)
 EXTENDS RefCount
 View == <<kind, holds, copyh, hascopy, extra, defer, made, cnt, alive>>   \* obs is an observation, not state
 =============================================================================
